@@ -4255,8 +4255,15 @@ impl<'s> Semantics<'s> {
 
             // store result: src gets original dest, then dest gets the sum
             // (the destination is written last: xadd eax, eax doubles eax)
-            self.operand_store(block, &detail.operands[1], original_dest.into())?;
-            self.operand_store(block, &detail.operands[0], result.into())?;
+            // a memory destination is written first, while the registers its
+            // address is made of still hold their original values
+            if detail.operands[0].type_ == x86_op_type::X86_OP_MEM {
+                self.operand_store(block, &detail.operands[0], result.into())?;
+                self.operand_store(block, &detail.operands[1], original_dest.into())?;
+            } else {
+                self.operand_store(block, &detail.operands[1], original_dest.into())?;
+                self.operand_store(block, &detail.operands[0], result.into())?;
+            }
 
             block.index()
         };
